@@ -9,4 +9,4 @@ RULE = ('the C09 histories with a read-heavy operation mix: attribute access, En
 
 
 def main(tier, seed):
-    return seqcommon.main_for('C10', 'exploration', RULE, ['reads', 'reads', 'default', 'rels'], tier, seed)
+    return seqcommon.main_for('C10', 'exploration', RULE, ['reads', 'reads', 'default', 'rels', 'partial'], tier, seed)
